@@ -842,6 +842,10 @@ fn apply(st: &mut State, line: &str, out: &mut String) {
                 }
             }
         }
+        "mrk" => {
+            // mrk n: the next n operations are one operation applied to n worlds that are copies of each other
+            // (a marker for the oracles; nothing happens)
+        }
         "tde" => {
             // tde src dst hr <dup|del|swap|inc k>…: the unmutated serialization of `src`, mutated at the level of
             // tokens (duplicate / delete / swap with the next / alter token k), then deserialized into `dst`.
